@@ -1,5 +1,5 @@
 from .. import facts
-from ..rules import geometry, codec
+from ..rules import geometry, codec, status
 
 
 def run(ck):
@@ -9,6 +9,7 @@ def run(ck):
     geometry.r2_raw_writers_bounded(ck, P)
     geometry.r3_one_call_per_box(ck, P)
     geometry.r6_clip_offsets(ck, P)
+    status.r_byte_budget(ck, P, 'C03-R7')
     codec.r1_codec(ck, P, ck.tier)          # C03-R4 = C10-R2: partial-byte stores preserve their neighbours
     if ck.tier == 'thorough':
         codec.r1_codec(ck, P, ck.tier, be=True)
